@@ -92,6 +92,16 @@ class Obj(Sort):
         return f"Obj({self.cls})"
 
 
+class Dct(Sort):
+    """A dict with fixed keys and values of the given sorts."""
+
+    def __init__(self, fields):
+        self.fields = fields
+
+    def __repr__(self):
+        return f"Dct({list(self.fields)})"
+
+
 class Opq(Sort):
     """Uninterpreted value (arrays, waves, ...) of a named abstract sort."""
 
@@ -121,6 +131,9 @@ def expand_alts(sort):
         keys = list(sort.fields)
         return [Obj(sort.module, sort.cls, dict(zip(keys, c)))
                 for c in itertools.product(*[expand_alts(sort.fields[k]) for k in keys])]
+    if isinstance(sort, Dct):
+        keys = list(sort.fields)
+        return [Dct(dict(zip(keys, c))) for c in itertools.product(*[expand_alts(sort.fields[k]) for k in keys])]
     return [sort]
 
 
@@ -191,6 +204,8 @@ def instantiate(ctx, sort, name, idx=()):
         s = SymSeq(mk(length), getter, name, psum=psum)
         s.pytype = sort.pytype
         return s
+    if isinstance(sort, Dct):
+        return {k: instantiate(ctx, fs, f"{name}[{k}]", idx) for k, fs in sort.fields.items()}
     if isinstance(sort, Obj):
         mod = extract.load_module(sort.module)
         cls = mod.classes.get(sort.cls)
@@ -292,6 +307,45 @@ def _spec_helpers():
     @reg("is_none")
     def is_none(I, args, kw):
         return args[0] is None
+
+    @reg("trig_add")
+    def trig_add(I, args, kw):
+        """Instance of the angle-addition theorems for cos/sin at (A, B): a valid formula, usable as an assumption."""
+        from .values import to_real_z
+
+        A, B = to_real_z(args[0]), to_real_z(args[1])
+        c, s_ = I.ctx.uf("cos", 1), I.ctx.uf("sin", 1)
+        I.ctx.trusted.add("trigonometric angle-addition identity instances (spec helper trig_add)")
+        for t in (A, B, A + B):
+            I.ctx.fact(c(t) * c(t) + s_(t) * s_(t) == 1)
+        return mk(z3.And(c(A + B) == c(A) * c(B) - s_(A) * s_(B), s_(A + B) == s_(A) * c(B) + c(A) * s_(B)))
+
+    @reg("trig_cong")
+    def trig_cong(I, args, kw):
+        """Congruence instance: A == B implies cos A == cos B and sin A == sin B (valid)."""
+        from .values import to_real_z
+
+        A, B = to_real_z(args[0]), to_real_z(args[1])
+        c, s_ = I.ctx.uf("cos", 1), I.ctx.uf("sin", 1)
+        return mk(z3.Implies(A == B, z3.And(c(A) == c(B), s_(A) == s_(B))))
+
+    @reg("trig_neg")
+    def trig_neg(I, args, kw):
+        from .values import to_real_z
+
+        A = to_real_z(args[0])
+        c, s_ = I.ctx.uf("cos", 1), I.ctx.uf("sin", 1)
+        I.ctx.trusted.add("cos(-x) == cos(x), sin(-x) == -sin(x) instances (spec helper trig_neg)")
+        return mk(z3.And(c(-A) == c(A), s_(-A) == -s_(A)))
+
+    @reg("trig_pi")
+    def trig_pi(I, args, kw):
+        """cos/sin at 0, pi/2, pi."""
+        from .externals import PI
+
+        c, s_ = I.ctx.uf("cos", 1), I.ctx.uf("sin", 1)
+        I.ctx.trusted.add("cos/sin at 0, pi/2 and pi (spec helper trig_pi)")
+        return mk(z3.And(c(z3.RealVal(0)) == 1, s_(z3.RealVal(0)) == 0, c(PI / 2) == 0, s_(PI / 2) == 1, c(PI) == -1, s_(PI) == 0))
 
     @reg("real")
     def real(I, args, kw):
@@ -401,7 +455,7 @@ def verify(spec, registry=None, max_paths=400, only_clauses=None, only_cfg=None)
                 vcs.append(dict(name=f"{base}/path-budget@cfg{ci}", unsupported=f"more than {max_paths} paths"))
                 break
             ctx = VCtx(prefix)
-            I = Interp(ctx, registry or {})
+            I = Interp(ctx, registry or {}, options=spec.get("options"))
             tag = f"@cfg{ci}p{npaths}"
             env = {}
             try:
@@ -456,6 +510,15 @@ def verify(spec, registry=None, max_paths=400, only_clauses=None, only_cfg=None)
                 raises = spec.get("raises") or {}
                 if outcome[0] == "return":
                     post_env["result"] = outcome[1]
+                    for gname, gexpr in (spec.get("post_ghost") or {}).items():
+                        post_env[gname] = eval_spec(I, gexpr, post_env, mod)
+                    for av in spec.get("assume_valid", []):  # instances of valid identities (trig_add, ...)
+                        if not any(av.strip().startswith(h) for h in ("trig_add(", "trig_neg(", "trig_pi(", "trig_cong(")):
+                            raise Unsupported("assume_valid accepts only identity-instance helpers")
+                        ctx.assume(eval_spec(I, av, post_env, mod))
+                    for an in spec.get("assume_numeric", []):  # constant lemmas, checked numerically at run time
+                        ctx.assume(eval_spec(I, an, post_env, mod))
+                        ctx.trusted.add(f"ASSUMED constant lemma (checked numerically with mpmath at run time): {an}")
                     for cname, cexpr in spec.get("ensures", []):
                         if only_clauses and cname not in only_clauses:
                             continue
